@@ -1072,3 +1072,20 @@ def rule_P4(F, R):
         else:
             R.violation("P4", b["owner_fn"], "method-never-returns", "the %s backend's %s has no returning path (every path ends in a panic): calling it through the public Server interface aborts the caller" % (be, name), where(b))
     R.floor("P4", "Server methods across the backends", n, 16)
+
+
+def rule_P5(F, R):
+    R.begin("P5", "the local server keeps no chain state in the handle: LocalServer holds its SQLite connection and nothing about versions. The acceptance test must read the latest version inside the transaction of the add; a value remembered from an earlier call is stale as soon as another handle on the same directory adds a version, and the compare-and-set is gone")
+    adt = None
+    for k, a in F.adts.items():
+        if k.startswith("server::local::LocalServer"):
+            adt = (k, a)
+    if adt is None:
+        R.missing("P5", "struct server::local::LocalServer")
+        return
+    k, a = adt
+    bad = [(f["name"], f["ty"]) for f in a["variants"][0]["fields"] if not re.search(r"^rusqlite::Connection$", f["ty"])]
+    if bad:
+        R.violation("P5", k, "chain-state-in-handle:%s" % bad[0][0], "LocalServer keeps `%s: %s` between calls: a second handle on the same directory changes the chain without this one noticing" % bad[0], loc(a["sp"]))
+    else:
+        R.ok("P5", "LocalServer fields: %s" % [f["name"] for f in a["variants"][0]["fields"]], loc(a["sp"]))
